@@ -3,6 +3,7 @@ import RactorModel.Lemmas.AdmissionCore
 import RactorModel.Lemmas.AdmissionIds
 import RactorModel.Lemmas.AdmissionQueue
 import RactorModel.Lemmas.AdmissionOracle
+import RactorModel.Model.Boxing
 
 /-!
 # C02 — the mailbox delivers accepted messages once, in order
@@ -289,8 +290,30 @@ example : (run (init [[.send [] false]])
     [.t 0, .t 0, .t 0, .t 0, .t 0, .t 0, .rxStop, .rxClose, .t 0, .t 0]).sh.rets
       = [⟨.send, 0, .sendErr, false, []⟩] := by decide
 
+/-! ### (d) in cluster builds: the type check and the boxing step (`Model/Boxing.lean`) -/
+
+/-- A send that is refused (`InvalidActorType`) leaves the target exactly as it was: nothing is
+enqueued, nothing is handled, the actor is not disturbed — for local and remote targets alike. -/
+theorem refused_send_changes_nothing (t : Boxing.Target) (m : Boxing.MsgKind)
+    (h : (Boxing.send t m).2 = .invalidType) : (Boxing.send t m).1 = t := by
+  unfold Boxing.send at *
+  by_cases hr : t.remote = true
+  · by_cases hs : Boxing.serializable m = true <;> simp_all
+  · by_cases ho : Boxing.ownType m = true <;> simp_all
+
+/-- A message that is not serializable is never accepted for a remote actor id (the `TypeId` check
+is skipped there, so `box_message` must refuse) and a message of another type is never accepted
+by a local actor. -/
+theorem wrong_kind_is_refused (t : Boxing.Target) (m : Boxing.MsgKind) :
+    (t.remote = true → Boxing.serializable m = false → (Boxing.send t m).2 = .invalidType) ∧
+    (t.remote = false → Boxing.ownType m = false → (Boxing.send t m).2 = .invalidType) := by
+  unfold Boxing.send
+  constructor <;> intro h1 h2 <;> simp [h1, h2]
+
 end C02
 
+#print axioms C02.refused_send_changes_nothing
+#print axioms C02.wrong_kind_is_refused
 #print axioms C02.enqueued_at_most_once
 #print axioms C02.return_value_tells_enqueue
 #print axioms C02.enqueued_only_by_ok_send
